@@ -229,7 +229,78 @@ def plan_c06(ck, prop, tier, seed, replay, t0):
     return rc
 
 
-PLANS = {"C06": plan_c06}
+# --------------------------------------------------------------------------------------
+# C17 / C18: Python-level monitors run by the system interpreter against an extension module that
+# contains the current tree of /repo/lightmotif-py plus the monitor helpers (pyharness/)
+
+
+def build_pyharness(ck):
+    crate = os.path.join(ck.VERIF, "pyharness")
+    env = dict(ck.ENV)
+    env["CARGO_TARGET_DIR"] = os.path.join(ck.BUILD, "py")
+    env["PYO3_PYTHON"] = "/usr/bin/python3"
+    rc, out, dt = ck.run(["cargo", "build", "--release", "--offline"], cwd=crate, env=env, timeout=3600)
+    if rc != 0:
+        raise ck.Inconclusive("build of pyharness failed: %s" % out[-1500:].replace("\n", " | "))
+    pkg = os.path.join(ck.BUILD, "py", "pkg")
+    os.makedirs(pkg, exist_ok=True)
+    shutil.copyfile(os.path.join(ck.BUILD, "py", "release", "liblmverif_py.so"), os.path.join(pkg, "lmverif_py.so"))
+    ck.log("[build pyharness: %.1fs]" % dt)
+    return pkg
+
+
+def plan_python(ck, prop, tier, seed, replay, t0):
+    only = None
+    if replay:
+        rp = json.load(open(replay))
+        seed, tier, only = rp["seed"], rp["tier"], rp["case"]
+    pkg = build_pyharness(ck)
+    env = dict(ck.ENV)
+    env["PYTHONPATH"] = "%s:%s" % (pkg, "/repo/lightmotif-py")
+    env["RUST_BACKTRACE"] = "0"
+    env["PYTHONDONTWRITEBYTECODE"] = "1"
+    script = os.path.join(ck.VERIF, "py", "monitor_%s.py" % prop.lower())
+    records = []
+
+    def one(tag, prefix, extra_env, tier_arg, timeout):
+        od = os.path.join(ck.BUILD, "out", prop, tag)
+        shutil.rmtree(od, ignore_errors=True)
+        os.makedirs(od, exist_ok=True)
+        cmd = list(prefix) + ["/usr/bin/python3", script, "--tier", tier_arg, "--seed", str(seed), "--out", od]
+        if only is not None:
+            cmd += ["--only", str(only)]
+        e = dict(env)
+        e.update(extra_env)
+        rc, out, dt = ck.run(cmd, cwd="/tmp", env=e, timeout=timeout)
+        summary = None
+        sp = os.path.join(od, "summary.json")
+        if os.path.exists(sp):
+            summary = json.load(open(sp))
+        return dict(build=tag, rc=rc, out=out, wall=dt, summary=summary, cmd=cmd)
+
+    records.append(one("python", [], {}, tier, 3600))
+    extra = {}
+    if prop == "C18" and tier == "thorough" and only is None:
+        # the same script under valgrind memcheck (CPython on the system allocator): any invalid read
+        # attributed to a buffer access is a view left dangling / pointing outside the object's storage
+        r = one("valgrind", ["valgrind", "--tool=memcheck", "--error-exitcode=0", "--num-callers=25", "--suppressions=%s" % os.path.join(ck.VERIF, "py", "python.supp")],
+                {"PYTHONMALLOC": "malloc", "LMVERIF_VALGRIND": "1"}, "quick", 7200)
+        reports = [x for x in parse_valgrind(r["out"]) if "Invalid_read" in x[0] or "Invalid_write" in x[0]]
+        extra["valgrind_reports"] = len(reports)
+        synth = []
+        for kind, frame, text in reports:
+            if "lightmotif" in text or "memory_" in text or "memoryview" in text.lower():
+                synth.append(dict(kind="c18.%s:%s" % (kind, frame), case=0, message="%s while reading a buffer view" % kind, witness=dict(report=text)))
+        if r["summary"] is not None:
+            s = r["summary"]
+            s["violations"] = list(s["violations"]) + synth
+            for v in synth:
+                s["violation_kinds"][v["kind"]] = s["violation_kinds"].get(v["kind"], 0) + 1
+        records.append(r)
+    return ck.finish(prop, tier, seed, records, t0, replay_of=replay, extra_observed=extra)
+
+
+PLANS = {"C06": plan_c06, "C17": plan_python, "C18": plan_python}
 
 
 def setup(ck):
@@ -240,4 +311,9 @@ def setup(ck):
         except ck.Inconclusive as e:
             print("setup: %s" % e)
             rc = 1
+    try:
+        build_pyharness(ck)
+    except ck.Inconclusive as e:
+        print("setup: %s" % e)
+        rc = 1
     return rc
